@@ -209,7 +209,10 @@ def transform_expression(
     :param symbols_to_use: an optional list of symbols to use so that already defined symbols will be reused.
     :return: the transformed expression and the symbols to use.
     """
-    pddl_variables = set(re.findall(r"(\([\w-]+\s[?\w\-\s]*\))", expression))
+    # a fluent is a parenthesised list that starts with a name - "(1 - 3)" is arithmetic on two numbers, not a fluent.
+    pddl_variables = set(
+        re.findall(r"(\([A-Za-z_][\w-]*\s[?\w\-\s]*\))", expression)
+    )
     if len(pddl_variables) == 0:
         return expression, symbols_to_use
 
